@@ -159,6 +159,54 @@ def run(ctx: Ctx) -> None:
                 readers.append(m.loc(x))
     ctx.ob("R15.4", "package|legacy PLY module globals are not read", not readers, msg=f"module-level lexer aliases of PLY are read at {readers}", node=None, nontrivial=False)
 
+    # ---------------------------------------------------------------- R15.6
+    # A preprocessor function made by a factory (make_*_preprocessor) lives in ParserOptions
+    # and is called once per parse: whatever it captured from the factory is shared by every
+    # parse that uses those options.  Captured configuration may only be read; an object
+    # built in the factory (a preprocessor instance, a list) must not be used by the closure.
+    ctx.rule("R15.6", "closures returned by factories keep no mutable object across calls: captured names are read-only configuration", minimum=10)
+    from ..shared import _classify, _is_mutable_value
+    for m in repo.modules.values():
+        if m.name.startswith("_ply"):
+            continue
+        for f in [x for x in ast.walk(m.tree) if isinstance(x, (ast.FunctionDef, ast.Lambda))]:
+            if not isinstance(f, ast.FunctionDef):
+                continue
+            inner = [g for g in ast.walk(f) if isinstance(g, ast.FunctionDef) and g is not f and _enclosing_function(m, g) is f]
+            for g in inner:
+                # only closures that outlive the call: returned, or stored somewhere
+                escapes = any((isinstance(x, ast.Return) and isinstance(x.value, ast.Name) and x.value.id == g.name) or
+                              (isinstance(x, ast.Assign) and isinstance(x.value, ast.Name) and x.value.id == g.name and any(not isinstance(t, ast.Name) for t in x.targets))
+                              for x in walk_local(f))
+                if not escapes:
+                    continue
+                g_local = {a.arg for a in g.args.args + g.args.kwonlyargs} | {t.id for x in ast.walk(g) for t in (x.targets if isinstance(x, ast.Assign) else [x.target] if isinstance(x, (ast.AnnAssign, ast.AugAssign, ast.For)) else []) if isinstance(t, ast.Name)}
+                g_local |= {x.optional_vars.id for w in ast.walk(g) if isinstance(w, ast.With) for x in w.items if isinstance(x.optional_vars, ast.Name)}
+                params = {a.arg for a in f.args.args + f.args.kwonlyargs}
+                bound: Dict[str, List[ast.AST]] = {}
+                for x in walk_local(f):
+                    if isinstance(x, (ast.Assign, ast.AnnAssign)) and getattr(x, "value", None) is not None:
+                        for t in (x.targets if isinstance(x, ast.Assign) else [x.target]):
+                            if isinstance(t, ast.Name):
+                                bound.setdefault(t.id, []).append(x.value)
+                qual = m.qualname_of(g)
+                for v in sorted(({y.id for y in ast.walk(g) if isinstance(y, ast.Name)} - g_local) & (params | set(bound))):
+                    kinds = {k for k in (_is_mutable_value(val) for val in bound.get(v, [])) if k}
+                    bad = []
+                    for y in ast.walk(g):
+                        if isinstance(y, ast.Name) and y.id == v:
+                            desc, ok_use = _classify(m, y, m.parent.get(y), set())
+                            mutation = desc.startswith(("mutating call", "item store", "augmented assignment", "attribute store", "nested attribute store", "rebound", "attribute rebound"))
+                            if mutation:
+                                bad.append(desc)
+                            elif "instance" in kinds and not desc.startswith(("compared", "truth-tested")):
+                                bad.append(desc + " on an object built once in the factory")
+                            elif kinds and not ok_use:
+                                bad.append(desc + " (a container built once in the factory escapes into the call)")
+                    ctx.ob("R15.6", f"{m.name}:{qual}|captured `{v}`", not bad,
+                           msg=f"{qual} is handed out by {f.name} and called for every parse, but uses `{v}` from the factory's frame: {sorted(set(bad))[:3]}; state made by one parse (macros, errors, collected items) is seen by the next",
+                           node=g, mod=m, nontrivial=bool(kinds))
+
     # ---------------------------------------------------------------- R15.5
     ctx.rule("R15.5", "tokens are mutated only where they are created (lexer.py); the placeholder token is immutable after module init", minimum=1)
     bad = []
@@ -211,3 +259,10 @@ def audit(ctx: Ctx, rid: str) -> None:
                         if isinstance(x, ast.AugAssign) and isinstance(x.target, ast.Name) and x.target.id == arg.arg:
                             bad.append("augmented assignment")
                     ctx.ob(rid, f"{m.name}:{qual}|mutable default `{arg.arg}`", not bad, msg=f"the default value of `{arg.arg}` (one object per process) is {bad[:2]}", node=d, mod=m, nontrivial=False)
+
+
+def _enclosing_function(m, node):
+    p = m.parent.get(node)
+    while p is not None and not isinstance(p, (ast.FunctionDef, ast.AsyncFunctionDef, ast.Lambda)):
+        p = m.parent.get(p)
+    return p
